@@ -9,6 +9,7 @@ import (
 	"strings"
 	"time"
 
+	mrserver "github.com/alicebob/miniredis/v2/server"
 	envoy "github.com/envoyproxy/go-control-plane/envoy/service/auth/v3"
 
 	"github.com/istio-ecosystem/authservice/internal/oidc"
@@ -38,6 +39,30 @@ func (d *driver) probe(s *spyStore, sid string) map[string]any {
 		out["known"] = true
 	}
 	return out
+}
+
+// failRedisCommand makes the k-th Redis command received from now on fail (all miniredis instances of the scenario).
+func (d *driver) failRedisCommand(k int) *bool {
+	hit := new(bool)
+	n := 0
+	for _, m := range d.env.mr {
+		m.Server().SetPreHook(func(c *mrserver.Peer, cmd string, args ...string) bool {
+			n++
+			if n == k {
+				*hit = true
+				c.WriteError("ERR verif: injected redis command fault")
+				return true
+			}
+			return false
+		})
+	}
+	return hit
+}
+
+func (d *driver) clearRedisHook() {
+	for _, m := range d.env.mr {
+		m.Server().SetPreHook(nil)
+	}
 }
 
 // shapeRequest deforms a request into one of the protobuf-level shape classes of Shapes.tla.
